@@ -1,4 +1,14 @@
 import Mp.ProofsNI
+import Mp.ProofsNILink
+import Mp.SortProofs
 import Mp.Analysis
-/-! C20 — the static read-set analyses: property theorems. -/
+import Mp.FactChecks
+/-! C20 — property theorems (proved in the imported modules; statements are checked there, axioms audited here). -/
 #print axioms Mp.ni_path_full
+#print axioms Mp.rf_sub_path
+#print axioms Mp.C20_noninterference_root
+#print axioms Mp.C20_noninterference_at
+#print axioms Mp.C20_query_noninterference
+#print axioms Mp.rootTop_path_mem
+#print axioms Mp.rootTop_sorted_nodup
+#print axioms Mp.FactChecks.root_fields_param_kinds
